@@ -326,7 +326,7 @@ def mapkeep_user(ctx, E, crate):
                    "mapper before it is installed" if ok else
                    "the new user lexicon is installed without being translated by `data.mapper`: "
                    "on a remapped dictionary its connection ids would be in the old numbering")
-            # (ii) verified against the connector, after the mapping, failing edge -> Err
+            # (ii) verified against the connector, failing edge -> Err
             vcalls = [(cb, ct) for cb, ct in calls_named(fa, "verify")
                       if ct["args"] and E.ap_operand(fa, ct["args"][0]) == xap]
             vok = False
@@ -359,9 +359,13 @@ def mapkeep_user(ctx, E, crate):
                 if not fa.dominates(vb, b):
                     why = "the store is not dominated by verify()"
                     continue
-                if any(cb in fa.reachable(vb) for cb, ct in mcalls):
-                    why = "the lexicon is translated after it was verified"
-                    continue
+                # The order of verify() and the translation is free: the mapper is a validated
+                # permutation of 0..n with n = the connector's id counts (ConnIdMapper::parse,
+                # rule MAPLEN), so a verified lexicon stays in range when translated. (An earlier
+                # version of this rule insisted on translate-then-verify, the order of the
+                # pinned tree; that order indexes the mapping table with unverified ids - defect
+                # 19, found by VERIFYMAP under C10 - and the insistence was a false alarm on
+                # the repaired tree.)
                 vok = True
             ctx.ob("MAPKEEP", "%s|verified-before-install" % P_RESET, vok, fa.loc(b),
                    "the (translated) user lexicon is verified against the connector before it "
